@@ -551,6 +551,39 @@ static size_t get_value_size(carquet_physical_type_t type, int32_t type_length) 
 }
 
 /* ============================================================================
+ * Helper: positioned read from the shared stream (fread path)
+ * ============================================================================
+ * All column readers of a file reader share one FILE*, and the batch reader
+ * loads the pages of several columns in parallel. Seeking and reading must
+ * therefore be one atomic step: otherwise another thread's seek slips in
+ * between and this thread reads some other column's bytes. The stream's own
+ * lock makes the pair atomic for any kind of thread.
+ *
+ * Returns the number of bytes read; *seek_failed is set if the seek failed.
+ */
+static size_t file_read_at(FILE* file, int64_t offset, void* buffer, size_t size,
+                           bool* seek_failed) {
+    size_t bytes_read = 0;
+    *seek_failed = false;
+#if defined(_WIN32)
+    _lock_file(file);
+#else
+    flockfile(file);
+#endif
+    if (fseek(file, (long)offset, SEEK_SET) != 0) {
+        *seek_failed = true;
+    } else {
+        bytes_read = fread(buffer, 1, size, file);
+    }
+#if defined(_WIN32)
+    _unlock_file(file);
+#else
+    funlockfile(file);
+#endif
+    return bytes_read;
+}
+
+/* ============================================================================
  * Helper: read and parse a page header (fread path)
  * ============================================================================
  * Page headers have no fixed size (statistics can make them long), so the
@@ -576,13 +609,13 @@ static carquet_status_t read_page_header_fread(
             return CARQUET_ERROR_OUT_OF_MEMORY;
         }
 
-        if (fseek(file, (long)offset, SEEK_SET) != 0) {
+        bool seek_failed;
+        size_t header_read = file_read_at(file, offset, header_buf, window, &seek_failed);
+        if (seek_failed) {
             free(header_buf);
             CARQUET_SET_ERROR(error, CARQUET_ERROR_FILE_SEEK, "Failed to seek to page header");
             return CARQUET_ERROR_FILE_SEEK;
         }
-
-        size_t header_read = fread(header_buf, 1, window, file);
         if (header_read < 8) {
             free(header_buf);
             CARQUET_SET_ERROR(error, CARQUET_ERROR_FILE_READ, "Failed to read page header");
@@ -732,21 +765,23 @@ static carquet_status_t load_dictionary_page_fread(
         return CARQUET_ERROR_INVALID_PAGE;
     }
 
-    /* Seek past header and read page data */
-    if (fseek(file, (long)dict_offset + (long)header_size, SEEK_SET) != 0) {
-        CARQUET_SET_ERROR(error, CARQUET_ERROR_FILE_SEEK, "Failed to seek past dict header");
-        return CARQUET_ERROR_FILE_SEEK;
-    }
-
-    /* Allocate and read compressed data */
+    /* Allocate and read compressed data (behind the header) */
     uint8_t* compressed = malloc(page_header.compressed_page_size);
     if (!compressed) {
         CARQUET_SET_ERROR(error, CARQUET_ERROR_OUT_OF_MEMORY, "Failed to allocate compressed buffer");
         return CARQUET_ERROR_OUT_OF_MEMORY;
     }
 
-    if (fread(compressed, 1, page_header.compressed_page_size, file) !=
-        (size_t)page_header.compressed_page_size) {
+    bool seek_failed;
+    size_t body_read = file_read_at(file, dict_offset + (int64_t)header_size,
+                                    compressed, (size_t)page_header.compressed_page_size,
+                                    &seek_failed);
+    if (seek_failed) {
+        free(compressed);
+        CARQUET_SET_ERROR(error, CARQUET_ERROR_FILE_SEEK, "Failed to seek past dict header");
+        return CARQUET_ERROR_FILE_SEEK;
+    }
+    if (body_read != (size_t)page_header.compressed_page_size) {
         free(compressed);
         CARQUET_SET_ERROR(error, CARQUET_ERROR_FILE_READ, "Failed to read dictionary data");
         return CARQUET_ERROR_FILE_READ;
@@ -1122,21 +1157,24 @@ static carquet_status_t load_next_page_fread(
         return CARQUET_ERROR_INVALID_PAGE;
     }
 
-    /* Seek past header and read page data */
-    if (fseek(file, data_offset + reader->current_page + (long)header_size, SEEK_SET) != 0) {
-        CARQUET_SET_ERROR(error, CARQUET_ERROR_FILE_SEEK, "Failed to seek past header");
-        return CARQUET_ERROR_FILE_SEEK;
-    }
-
-    /* Allocate and read compressed data */
+    /* Allocate and read compressed data (behind the header) */
     uint8_t* compressed = malloc(page_header.compressed_page_size);
     if (!compressed) {
         CARQUET_SET_ERROR(error, CARQUET_ERROR_OUT_OF_MEMORY, "Failed to allocate compressed buffer");
         return CARQUET_ERROR_OUT_OF_MEMORY;
     }
 
-    if (fread(compressed, 1, page_header.compressed_page_size, file) !=
-        (size_t)page_header.compressed_page_size) {
+    bool seek_failed;
+    size_t body_read = file_read_at(file,
+                                    data_offset + reader->current_page + (int64_t)header_size,
+                                    compressed, (size_t)page_header.compressed_page_size,
+                                    &seek_failed);
+    if (seek_failed) {
+        free(compressed);
+        CARQUET_SET_ERROR(error, CARQUET_ERROR_FILE_SEEK, "Failed to seek past header");
+        return CARQUET_ERROR_FILE_SEEK;
+    }
+    if (body_read != (size_t)page_header.compressed_page_size) {
         free(compressed);
         CARQUET_SET_ERROR(error, CARQUET_ERROR_FILE_READ, "Failed to read page data");
         return CARQUET_ERROR_FILE_READ;
